@@ -25,8 +25,8 @@ Open Scope Z_scope.
 Fixpoint filler (n : nat) (i marker : Z) : bytes :=
   match n with O => [] | S n' => ((marker + i) mod 256) :: filler n' (i + 1) marker end.
 Definition mk_payload (len lod count marker blen : Z) : bytes :=
-  filler 8 0 marker ++ u32 blen ++ u32 0 ++ [2] ++ filler 4 17 marker ++ u16 0
-  ++ u32 lod ++ filler 30 27 marker ++ u32 count ++ filler (Z.to_nat (len - 61)) 61 marker.
+  ztake len (filler 8 0 marker ++ u32 blen ++ u32 0 ++ [2] ++ filler 4 17 marker ++ u16 0
+  ++ u32 lod ++ filler 30 27 marker ++ u32 count ++ filler (Z.to_nat (len - 61)) 61 marker).
 
 Inductive obs_res :=
 | XSeg (k a b : Z)
@@ -42,7 +42,8 @@ Inductive cstep :=
 Record case := mkCase { k_interval : Z; k_requeue : bool; k_start : Z; k_steps : list cstep }.
 
 Definition entries_eqb (es : list ientry) (obs : list (Z * Z)) : bool :=
-  list_eqb (fun e p => (ie_off e =? fst p) && (ie_pos e =? snd p)) es obs.
+  list_eqb (fun e p => (fst e =? fst p) && (snd e =? snd p))
+           (map (fun e => (ie_off e, ie_pos e)) es) obs.
 
 Definition dummy_seg : segment := mkSeg 0 0 0 [] [] [].
 
